@@ -119,6 +119,7 @@ def fn_key(path):
 
 
 PARAM_NAMES_FILE = os.path.join(os.path.dirname(os.path.abspath(__file__)), "param_names.json")
+PARAM_TYPES_FILE = os.path.join(os.path.dirname(os.path.abspath(__file__)), "param_types.json")
 
 
 def canonical_param_names(fx):
@@ -143,8 +144,30 @@ def canonical_param_names(fx):
         t_last.setdefault(last(k_), []).append(k_)
     for k_ in by_key:
         b_last.setdefault(last(k_), []).append(k_)
+    # a private function *renamed* (and perhaps its parameters with it): within the same impl / module, the only function of the
+    # tree the table does not know whose signature (parameter and return types, lifetimes erased) equals that of the only table
+    # function the tree no longer has
+    try:
+        sigs = json.load(open(PARAM_TYPES_FILE))
+    except OSError:
+        sigs = {}
+    scope = lambda k_: k_.rsplit("::", 1)[0] if "::" in k_ else ""
+
+    def sig_of(b_):
+        return [[_erase_lt(x_) for x_ in (b_.get("inputs") or [])], _erase_lt(b_.get("output") or "")]
+    renamed_fn = {}
+    unknown = [k_ for k_, ps_ in by_key.items() if k_ not in table and len(ps_) == 1 and not fx.bodies[ps_[0]].get("reachable_pub")]
+    gone = [k_ for k_ in table if k_ not in by_key and k_ in sigs]
+    for k_ in unknown:
+        sg_ = sig_of(fx.bodies[by_key[k_][0]])
+        cands_ = [g_ for g_ in gone if scope(g_) == scope(k_) and sigs[g_] == sg_]
+        rivals_ = [u_ for u_ in unknown if u_ != k_ and scope(u_) == scope(k_) and sig_of(fx.bodies[by_key[u_][0]]) == sg_]
+        if len(cands_) == 1 and not rivals_:
+            renamed_fn[k_] = cands_[0]
     for k, ps in by_key.items():
         want = table.get(k)
+        if want is None and k in renamed_fn:
+            want = table[renamed_fn[k]]
         if want is None and "<" not in k and len(t_last.get(last(k), [])) == 1 and len(b_last[last(k)]) == 1 \
                 and fx.bodies[ps[0]]["kind"] == "Fn" and t_last[last(k)][0].count("::") <= k.count("::"):
             want = table[t_last[last(k)][0]]
